@@ -70,55 +70,76 @@ theorem mem_joinWith (sep : Str) (fs : List Str) (c : Char) (h : c ∈ joinWith 
         · exact Or.inl h'
         · exact Or.inr ⟨f, by simp [hf], hc⟩
 
-theorem headNonSpace_joinWith (sep : Str) (f : Str) (r : List Str) (h : headNonSpace f = true) :
-    headNonSpace (joinWith sep (f :: r)) = true := by
-  obtain ⟨c, f', rfl, hc⟩ := (headNonSpace_iff f).mp h
-  cases r with
-  | nil => simpa [joinWith] using h
-  | cons y r => rw [joinWith_cons_cons]; simp [headNonSpace, hc]
+theorem isEol_false_iff (c : Char) : isEol c = false ↔ c ≠ '\r' ∧ c ≠ '\n' := by
+  simp [isEol]
 
-theorem lastNonSpace_joinWith (sep : Str) (init : List Str) (g : Str) (h : lastNonSpace g = true) :
-    lastNonSpace (joinWith sep (init ++ [g])) = true := by
-  obtain ⟨c, g', rfl, hc⟩ := (lastNonSpace_iff g).mp h
-  by_cases hi : init = []
-  · subst hi; simpa [joinWith] using h
-  · rw [joinWith_append_singleton sep init _ hi, lastNonSpace_iff]
-    exact ⟨c, joinWith sep init ++ sep ++ g', by simp [List.append_assoc], hc⟩
+theorem padOk_iff (p : Str) : padOk p = true ↔ (∀ c ∈ p, isEol c = true) ∧ '\n' ∉ p := by
+  simp only [padOk, List.all_eq_true, beq_iff_eq]
+  constructor
+  · intro h
+    refine ⟨fun c hc => by rw [h c hc]; decide, fun hm => ?_⟩
+    have := h _ hm
+    revert this; decide
+  · rintro ⟨h1, h2⟩ c hc
+    have := h1 c hc
+    simp only [isEol, Bool.or_eq_true, beq_iff_eq] at this
+    rcases this with e | e
+    · exact e
+    · subst e; exact absurd hc h2
 
 theorem edgeOk_elim (fs : List Str) (h : edgeOk fs = true) :
-    ∃ f r init g, fs = f :: r ∧ fs = init ++ [g] ∧ headNonSpace f = true ∧ lastNonSpace g = true := by
-  cases fs with
-  | nil => simp [edgeOk] at h
-  | cons f r =>
-    rcases List.eq_nil_or_concat (f :: r) with e | ⟨init, g, e⟩
-    · cases e
-    · rw [List.concat_eq_append] at e
-      have hl : (f :: r).getLast? = some g := by rw [e]; simp
-      unfold edgeOk at h
-      rw [hl] at h
-      simp only [List.head?_cons, Option.map_some, Option.getD_some, Bool.and_eq_true] at h
-      exact ⟨f, r, init, g, rfl, e, h.1, h.2⟩
+    ∃ init g, fs = init ++ [g] ∧ g.getLast? ≠ some '\r' := by
+  rcases List.eq_nil_or_concat fs with e | ⟨init, g, e⟩
+  · subst e; simp [edgeOk] at h
+  · rw [List.concat_eq_append] at e
+    subst e
+    refine ⟨init, g, rfl, ?_⟩
+    simpa [edgeOk] using h
 
-theorem edgeOk_joinWith (sep : Str) (fs : List Str) (h : edgeOk fs = true) :
-    headNonSpace (joinWith sep fs) = true ∧ lastNonSpace (joinWith sep fs) = true := by
-  obtain ⟨f, r, init, g, e1, e2, h1, h2⟩ := edgeOk_elim fs h
+theorem edgeOk_append_singleton (init : List Str) (g : Str) :
+    edgeOk (init ++ [g]) = true ↔ g.getLast? ≠ some '\r' := by
+  simp [edgeOk]
+
+theorem last_not_eol (g : Str) (c : Char) (h : g.getLast? = some c) (hg : g.getLast? ≠ some '\r')
+    (hn : '\n' ∉ g) : isEol c = false := by
+  rw [isEol_false_iff]
   constructor
-  · rw [e1]; exact headNonSpace_joinWith sep f r h1
-  · rw [e2]; exact lastNonSpace_joinWith sep init g h2
+  · intro e; subst e; exact hg h
+  · intro e; subst e; exact hn (List.mem_of_getLast? h)
 
-theorem padOk_iff (p : Str) : padOk p = true ↔ (∀ c ∈ p, pyIsSpace c = true) ∧ '\n' ∉ p := by
-  simp [padOk]
+/-- the text of a line whose last field does not end with a carriage return does not end with a line
+terminator character — also when that last field is empty (the line then ends with the separator) -/
+theorem joined_last_not_eol (sepC : Char) (fs : List Str) (hs : isEol sepC = false)
+    (hf : ∀ f ∈ fs, '\n' ∉ f) (he : edgeOk fs = true) :
+    ∀ c, (joinWith [sepC] fs).getLast? = some c → isEol c = false := by
+  obtain ⟨init, g, rfl, hg⟩ := edgeOk_elim fs he
+  intro c hc
+  have hgn : '\n' ∉ g := hf g (by simp)
+  by_cases hi : init = []
+  · subst hi
+    simp only [List.nil_append, joinWith] at hc
+    exact last_not_eol g c hc hg hgn
+  · rw [joinWith_append_singleton _ init g hi, List.getLast?_append] at hc
+    cases hgl : g.getLast? with
+    | none =>
+      rw [hgl] at hc
+      simp at hc
+      subst hc; exact hs
+    | some x =>
+      rw [hgl] at hc
+      simp at hc
+      subst hc; exact last_not_eol g x hgl hg hgn
 
-/-- `strip` of a padded joined line gives the joined line -/
-theorem strip_padded_line (sep : Str) (a b : Str) (fs : List Str)
-    (ha : padOk a = true) (hb : padOk b = true) (he : edgeOk fs = true) :
-    strip (a ++ joinWith sep fs ++ b) = joinWith sep fs := by
-  obtain ⟨h1, h2⟩ := edgeOk_joinWith sep fs he
-  exact strip_pad a _ b ((padOk_iff a).mp ha).1 ((padOk_iff b).mp hb).1 h1 h2
+/-- `rstrip("\r\n")` of a joined line followed by carriage returns gives the joined line -/
+theorem chomp_padded_line (sepC : Char) (b : Str) (fs : List Str) (hs : isEol sepC = false)
+    (hb : padOk b = true) (hf : ∀ f ∈ fs, '\n' ∉ f) (he : edgeOk fs = true) :
+    chomp (joinWith [sepC] fs ++ b) = joinWith [sepC] fs :=
+  chomp_pad _ b ((padOk_iff b).mp hb).1 (joined_last_not_eol sepC fs hs hf he)
 
-theorem strip_joined_line (sep : Str) (fs : List Str) (he : edgeOk fs = true) :
-    strip (joinWith sep fs) = joinWith sep fs := by
-  have := strip_padded_line sep [] [] fs (by decide) (by decide) he
+theorem chomp_joined_line (sepC : Char) (fs : List Str) (hs : isEol sepC = false)
+    (hf : ∀ f ∈ fs, '\n' ∉ f) (he : edgeOk fs = true) :
+    chomp (joinWith [sepC] fs) = joinWith [sepC] fs := by
+  have := chomp_padded_line sepC [] fs hs (by decide) hf he
   simpa using this
 
 end Mk
